@@ -10,7 +10,13 @@ import (
 	"encoding/binary"
 	"fmt"
 	"hash/crc32"
+	"encoding/json"
 	"math/rand/v2"
+	"os"
+	"os/exec"
+	"path/filepath"
+	"strings"
+	"sync"
 	"sync/atomic"
 	"testing"
 	"time"
@@ -96,147 +102,325 @@ var vc11Importers = []vc11Importer{
 	}},
 }
 
-// vc11Corruption enumerates corrupted variants of the export of history.
-func vc11Corruption(r *ev.R, name string, history []string, reseal bool, importers []vc11Importer) {
-	secName := "message-corruption/" + name
-	if reseal {
-		secName = "message-resealed-mismatch/" + name
-	}
-	e := r.NewEnum(secName)
-	in, err := vc11Build(history)
+// vc11CaseResult is the outcome of importing one mutated stream into one target.
+type vc11CaseResult struct {
+	Idx     int    `json:"idx"`
+	Label   string `json:"label"`
+	Target  string `json:"target"`
+	Outcome string `json:"outcome"` // rejected:<class> | accepted | accepted-identical | accepted-different | partially-applied | panic
+	Detail  string `json:"detail,omitempty"`
+}
+
+type vc11Target struct {
+	name string
+	st   *vc11Store
+	dump vc11Dump
+}
+
+func vc11FreshTarget(restored bool, stream []byte) (*vc11Target, error) {
+	st, err := vc11Fresh()
 	if err != nil {
-		r.HarnessError("%s: %v", secName, err)
-		return
+		return nil, err
 	}
-	defer in.Close()
-	cuts := vc11Cuts(in.model)
-	stream, _, err := vc11Export(in.src, cuts)
-	if err != nil {
-		r.HarnessError("%s: export: %v", secName, err)
-		return
-	}
-	type target struct {
-		name string
-		st   *vc11Store
-		dump vc11Dump
-	}
-	fresh := func(restored bool) (*target, error) {
-		st, err := vc11Fresh()
-		if err != nil {
-			return nil, err
-		}
-		t := &target{name: "empty", st: st}
-		if restored {
-			t.name = "restored"
-			if _, err := vc11ImportReader(st, stream); err != nil {
-				st.close()
-				return nil, err
-			}
-		}
-		t.dump, err = vc11DumpStore(st)
-		if err != nil {
+	t := &vc11Target{name: "empty", st: st}
+	if restored {
+		t.name = "restored"
+		if _, err := vc11ImportReader(st, stream); err != nil {
 			st.close()
 			return nil, err
 		}
-		return t, nil
 	}
-	restoredRef, err := fresh(true)
+	t.dump, err = vc11DumpStore(st)
 	if err != nil {
-		r.HarnessError("%s: %v", secName, err)
-		return
+		st.close()
+		return nil, err
 	}
-	defer func() { restoredRef.st.close() }()
-	var targets []*target
-	kinds := []bool{false, true}
-	if reseal {
-		kinds = []bool{false}
+	return t, nil
+}
+
+// vc11RunCases imports cases[from:] through imp into an empty target (and, for plain
+// corruption, a target that already holds the restored snapshot) and reports every outcome.
+func vc11RunCases(imp vc11Importer, stream []byte, cases []vc11Case, from int, reseal bool, before func(int), emit func(vc11CaseResult)) error {
+	ref, err := vc11FreshTarget(true, stream)
+	if err != nil {
+		return err
 	}
-	for _, restored := range kinds {
-		t, err := fresh(restored)
-		if err != nil {
-			r.HarnessError("%s: %v", secName, err)
-			return
-		}
-		targets = append(targets, t)
-	}
+	restoredHash := ref.dump.Hash
+	ref.st.close()
+	var targets []*vc11Target
 	defer func() {
 		for _, t := range targets {
 			t.st.close()
 		}
 	}()
-	cases := vc11Mutations(stream, reseal)
-	accepted, rejected := 0, 0
-	for _, c := range cases {
-		for _, imp := range importers {
-			for ti, t := range targets {
-				var ierr error
-				perr := ev.Recover(func() { ierr = imp.run(t.st, c.data) })
-				where := fmt.Sprintf("%s: %s via %s into %s target (stream %d bytes)", secName, c.label, imp.name, t.name, len(stream))
-				replay := map[string]any{"section": secName, "history": history, "case": c.label, "importer": imp.name, "target": t.name, "reseal": reseal}
-				if perr != nil {
-					r.Violation(ev.Violation{Fingerprint: "C11:import-panics:" + imp.name, Message: where + ": " + perr.Error(), System: secName, Replay: replay})
-					e.Case(where, true, "panic")
-					nt, err := fresh(t.name == "restored")
-					if err != nil {
-						r.HarnessError("%s: %v", secName, err)
-						return
-					}
-					t.st.close()
-					targets[ti] = nt
-					continue
-				}
+	kinds := []bool{false, true}
+	if reseal {
+		kinds = []bool{false}
+	}
+	for _, restored := range kinds {
+		t, err := vc11FreshTarget(restored, stream)
+		if err != nil {
+			return err
+		}
+		targets = append(targets, t)
+	}
+	for idx := from; idx < len(cases); idx++ {
+		c := cases[idx]
+		if before != nil {
+			before(idx)
+		}
+		for ti, t := range targets {
+			var ierr error
+			perr := ev.Recover(func() { ierr = imp.run(t.st, c.data) })
+			res := vc11CaseResult{Idx: idx, Label: c.label, Target: t.name}
+			reset := false
+			if perr != nil {
+				res.Outcome, res.Detail, reset = "panic", perr.Error(), true
+			} else {
 				after, err := vc11DumpStore(t.st)
 				if err != nil {
-					r.HarnessError("%s: dump: %v", where, err)
-					return
+					return err
 				}
 				switch {
 				case ierr != nil && after.Hash == t.dump.Hash:
-					rejected++
-					e.Case(where, true, "rejected:"+vc11ErrClass(ierr))
+					res.Outcome, res.Detail = "rejected:"+vc11ErrClass(ierr), ierr.Error()
 				case ierr != nil:
-					fp := "C11:rejected-stream-partially-applied:" + imp.name
-					if !reseal {
-						fp = "C11:corrupted-stream-partially-applied:" + imp.name
-					}
-					r.Violation(ev.Violation{Fingerprint: fp, Message: fmt.Sprintf("%s: import failed (%v) but the target changed: %s", where, ierr, vc11DumpDiff(t.dump, after)), System: secName, Replay: replay})
-					e.Case(where, true, "partially-applied")
-				case !reseal && after.Hash == restoredRef.dump.Hash:
-					// accepted, and decodes to the identical state
-					accepted++
-					e.Case(where, true, "accepted-identical")
+					res.Outcome, res.Detail = "partially-applied", fmt.Sprintf("import failed (%v) but the target changed: %s", ierr, vc11DumpDiff(t.dump, after))
+				case !reseal && after.Hash == restoredHash:
+					res.Outcome = "accepted-identical" // decodes to the identical state
 				case !reseal:
-					r.Violation(ev.Violation{Fingerprint: "C11:corrupted-stream-accepted:" + imp.name, Message: fmt.Sprintf("%s: import succeeded and installed a different state: %s", where, vc11DumpDiff(restoredRef.dump, after)), System: secName, Replay: replay})
-					e.Case(where, true, "accepted-different")
+					res.Outcome, res.Detail = "accepted-different", "import succeeded and installed a state that differs from the restored snapshot"
 				default:
-					// well-formed envelope around different content: accepting it is legal
-					accepted++
-					e.Case(where, true, "accepted")
+					res.Outcome = "accepted" // well-formed envelope around different content
 				}
-				if after.Hash != t.dump.Hash {
-					nt, err := fresh(t.name == "restored")
-					if err != nil {
-						r.HarnessError("%s: %v", secName, err)
-						return
-					}
-					t.st.close()
-					targets[ti] = nt
-				}
+				reset = after.Hash != t.dump.Hash
 			}
+			emit(res)
+			if reset {
+				nt, err := vc11FreshTarget(t.name == "restored", stream)
+				if err != nil {
+					return err
+				}
+				t.st.close()
+				targets[ti] = nt
+			}
+		}
+	}
+	return nil
+}
+
+// vc11Stream rebuilds the fixed source and exports it (deterministic).
+func vc11Stream(history []string) ([]byte, error) {
+	in, err := vc11Build(history)
+	if err != nil {
+		return nil, err
+	}
+	defer in.Close()
+	stream, _, err := vc11Export(in.src, vc11Cuts(in.model))
+	return stream, err
+}
+
+// TestVerifC11MsgChild is the child side of the process-isolated enumeration (an import
+// that kills the process with a runtime fatal error must be observed, not suffered).
+func TestVerifC11MsgChild(t *testing.T) {
+	spec := os.Getenv("VC11_CHILD")
+	if spec == "" {
+		t.Skip("child-process helper of TestVerifC11Msg")
+	}
+	var c struct {
+		History  []string `json:"history"`
+		Importer string   `json:"importer"`
+		Reseal   bool     `json:"reseal"`
+		From     int      `json:"from"`
+		Out      string   `json:"out"`
+	}
+	if err := json.Unmarshal([]byte(spec), &c); err != nil {
+		t.Fatal(err)
+	}
+	vc11Setup()
+	stream, err := vc11Stream(c.History)
+	if err != nil {
+		t.Fatal(err)
+	}
+	var imp vc11Importer
+	for _, i := range vc11Importers {
+		if i.name == c.Importer {
+			imp = i
+		}
+	}
+	out, err := os.OpenFile(c.Out, os.O_APPEND|os.O_CREATE|os.O_WRONLY, 0o644)
+	if err != nil {
+		t.Fatal(err)
+	}
+	defer out.Close()
+	enc := json.NewEncoder(out)
+	err = vc11RunCases(imp, stream, vc11Mutations(stream, c.Reseal), c.From, c.Reseal,
+		func(idx int) { fmt.Fprintf(out, "{\"begin\":%d}\n", idx) },
+		func(res vc11CaseResult) { _ = enc.Encode(res) })
+	if err != nil {
+		t.Fatal(err)
+	}
+	fmt.Fprintln(out, "{\"done\":true}")
+}
+
+func vc11Tail(s string, n int) string {
+	if i := strings.Index(s, "fatal error"); i >= 0 {
+		j := strings.LastIndex(s[:i], "\n")
+		if j < 0 {
+			j = 0
+		}
+		s = s[j:]
+	}
+	if len(s) > n {
+		s = s[:n]
+	}
+	return strings.TrimSpace(s)
+}
+
+// vc11RunIsolated runs the enumeration for imp in child processes; a child that dies is
+// reported for the case it was executing and the enumeration resumes after that case.
+func vc11RunIsolated(r *ev.R, secName string, history []string, imp vc11Importer, ncases int, reseal bool, emit func(vc11CaseResult), crash func(idx int, tail string)) {
+	dir, err := os.MkdirTemp("", "vc11child")
+	if err != nil {
+		r.HarnessError("%s: %v", secName, err)
+		return
+	}
+	defer os.RemoveAll(dir)
+	from := 0
+	for attempt := 0; from < ncases && attempt < 400; attempt++ {
+		outPath := filepath.Join(dir, fmt.Sprintf("out-%d.jsonl", attempt))
+		spec, _ := json.Marshal(map[string]any{"history": history, "importer": imp.name, "reseal": reseal, "from": from, "out": outPath})
+		cmd := exec.Command(os.Args[0], "-test.run", "^TestVerifC11MsgChild$", "-test.timeout", "0")
+		cmd.Env = append(append([]string{}, os.Environ()...), "VC11_CHILD="+string(spec), "VERIF_OUT=", "VERIF_REPLAY=")
+		var output bytes.Buffer
+		cmd.Stdout = &output
+		cmd.Stderr = &output
+		runErr := cmd.Run()
+		data, _ := os.ReadFile(outPath)
+		done := false
+		last := -1
+		for _, line := range strings.Split(string(data), "\n") {
+			if line == "" {
+				continue
+			}
+			var m map[string]any
+			if json.Unmarshal([]byte(line), &m) != nil {
+				continue
+			}
+			if _, ok := m["done"]; ok {
+				done = true
+				continue
+			}
+			if b, ok := m["begin"]; ok {
+				last = int(b.(float64))
+				continue
+			}
+			var res vc11CaseResult
+			if json.Unmarshal([]byte(line), &res) == nil && res.Outcome != "" {
+				emit(res)
+			}
+		}
+		if done && runErr == nil {
+			return
+		}
+		if last < from {
+			r.HarnessError("%s: child process failed before the first case: %v: %s", secName, runErr, vc11Tail(output.String(), 600))
+			return
+		}
+		crash(last, vc11Tail(output.String(), 1000))
+		from = last + 1
+	}
+}
+
+// vc11Corruption enumerates corrupted variants of the export of history. Importers named
+// in isolated run in child processes.
+func vc11Corruption(r *ev.R, name string, history []string, reseal bool, importers []vc11Importer, isolated map[string]bool) {
+	secName := "message-corruption/" + name
+	if reseal {
+		secName = "message-resealed-mismatch/" + name
+	}
+	e := r.NewEnum(secName)
+	stream, err := vc11Stream(history)
+	if err != nil {
+		r.HarnessError("%s: %v", secName, err)
+		return
+	}
+	cases := vc11Mutations(stream, reseal)
+	type impResult struct {
+		results []vc11CaseResult
+		killed  []vc11CaseResult
+		err     error
+	}
+	out := make([]*impResult, len(importers))
+	var wg sync.WaitGroup
+	for i, imp := range importers {
+		i, imp := i, imp
+		res := &impResult{}
+		out[i] = res
+		wg.Add(1)
+		go func() {
+			defer wg.Done()
+			emit := func(cr vc11CaseResult) { res.results = append(res.results, cr) }
+			if isolated[imp.name] {
+				vc11RunIsolated(r, secName, history, imp, len(cases), reseal, emit, func(idx int, tail string) {
+					res.killed = append(res.killed, vc11CaseResult{Idx: idx, Label: cases[idx].label, Detail: tail})
+				})
+				return
+			}
+			res.err = vc11RunCases(imp, stream, cases, 0, reseal, nil, emit)
+		}()
+	}
+	wg.Wait()
+	accepted, rejected, killed := 0, 0, 0
+	for i, imp := range importers {
+		res := out[i]
+		if res.err != nil {
+			r.HarnessError("%s: %s: %v", secName, imp.name, res.err)
+			return
+		}
+		replay := func(label, target string) map[string]any {
+			return map[string]any{"section": secName, "history": history, "case": label, "importer": imp.name, "target": target, "reseal": reseal}
+		}
+		for _, cr := range res.results {
+			where := fmt.Sprintf("%s: %s via %s into %s target (stream %d bytes)", secName, cr.Label, imp.name, cr.Target, len(stream))
+			switch {
+			case strings.HasPrefix(cr.Outcome, "rejected"):
+				rejected++
+			case cr.Outcome == "accepted" || cr.Outcome == "accepted-identical":
+				accepted++
+			case cr.Outcome == "panic":
+				r.Violation(ev.Violation{Fingerprint: "C11:import-panics:" + imp.name, Message: where + ": " + cr.Detail, System: secName, Replay: replay(cr.Label, cr.Target)})
+			case cr.Outcome == "partially-applied":
+				fp := "C11:rejected-stream-partially-applied:" + imp.name
+				if !reseal {
+					fp = "C11:corrupted-stream-partially-applied:" + imp.name
+				}
+				r.Violation(ev.Violation{Fingerprint: fp, Message: where + ": " + cr.Detail, System: secName, Replay: replay(cr.Label, cr.Target)})
+			case cr.Outcome == "accepted-different":
+				r.Violation(ev.Violation{Fingerprint: "C11:corrupted-stream-accepted:" + imp.name, Message: where + ": " + cr.Detail, System: secName, Replay: replay(cr.Label, cr.Target)})
+			}
+			e.Case(where, true, cr.Outcome)
+		}
+		for _, cr := range res.killed {
+			killed++
+			where := fmt.Sprintf("%s: %s via %s (stream %d bytes)", secName, cr.Label, imp.name, len(stream))
+			r.Violation(ev.Violation{Fingerprint: "C11:import-kills-process:" + imp.name, Message: where + ": the importing process died: " + cr.Detail, System: secName, Replay: replay(cr.Label, "any")})
+			e.Case(where, true, "process-killed")
 		}
 	}
 	names := []string{}
 	for _, imp := range importers {
 		names = append(names, imp.name)
 	}
-	e.Done(true, map[string]any{"history": history, "stream_bytes": len(stream), "mutated_streams": len(cases), "importers": names, "targets": len(targets), "resealed_checksum": reseal},
-		"every truncation length and every offset x {bit0 flip, bit7 flip, 0x00, 0xFF} of one exported stream; a case = (mutated stream, import API, target state)")
+	e.Done(true, map[string]any{"history": history, "stream_bytes": len(stream), "mutated_streams": len(cases), "importers": names, "resealed_checksum": reseal},
+		"every truncation length and every offset x {bit0 flip, bit7 flip, 0x00, 0xFF} of one exported stream; a case = (mutated stream, import API, target state: empty / already restored)")
 	r.Count(secName+"/rejected-target-unchanged", int64(rejected))
 	r.Count(secName+"/accepted", int64(accepted))
+	r.Count(secName+"/process-killed", int64(killed))
 	if !reseal {
 		r.Guard(secName+"/rejections", rejected >= len(cases), "%d rejected imports for %d mutated streams", rejected, len(cases))
 	} else {
-		r.Guard(secName+"/both-outcomes", rejected >= 1, "%d rejected, %d accepted re-sealed streams", rejected, accepted)
+		r.Guard(secName+"/both-outcomes", rejected >= 1 && accepted >= 1, "%d rejected, %d accepted re-sealed streams", rejected, accepted)
 	}
 	if len(cases) > 0 {
 		r.Sample(map[string]any{"section": secName, "history": history, "stream_bytes": len(stream), "example_case": cases[len(cases)/2].label, "cases": len(cases)})
@@ -432,7 +616,7 @@ func TestVerifC11Msg(t *testing.T) {
 	r := ev.Start(t, "C11")
 	defer r.Finish()
 	vc11Setup()
-	depth := ev.Pick(r, 4, 5)
+	depth := ev.Pick(r, 3, 5)
 	res := mc.Run(r, mc.System{
 		Name: "message-backup-roundtrip", New: vc11NewInst, MaxDepth: depth, KeepGoing: true,
 		Bounds: map[string]any{"channels": 2, "alphabet": "per channel: exact append (uncommitted, commits its predecessors), follower apply (row + HW + epoch point), commit advance by one, retention trim of one more committed row"},
@@ -445,13 +629,13 @@ func TestVerifC11Msg(t *testing.T) {
 		before := r.ViolationCount()
 		switch rf.System {
 		case "message-corruption/exact":
-			vc11Corruption(r, "exact", h1, false, vc11Importers)
+			vc11Corruption(r, "exact", h1, false, vc11Importers, nil)
 		case "message-corruption/two-channels":
-			vc11Corruption(r, "two-channels", h2, false, vc11Importers)
+			vc11Corruption(r, "two-channels", h2, false, vc11Importers, nil)
 		case "message-resealed-mismatch/exact":
-			vc11Corruption(r, "exact", h1, true, vc11Importers[:1])
+			vc11Corruption(r, "exact", h1, true, vc11Importers, map[string]bool{"bytes": true})
 		case "message-resealed-mismatch/two-channels":
-			vc11Corruption(r, "two-channels", h2, true, vc11Importers[:1])
+			vc11Corruption(r, "two-channels", h2, true, vc11Importers, map[string]bool{"bytes": true})
 		case "message-restore-crash-retry/two-channels":
 			vc11CrashRetry(r, "two-channels", h2)
 		case "message-restore-crash-retry/exact":
@@ -463,11 +647,11 @@ func TestVerifC11Msg(t *testing.T) {
 		return
 	}
 	r.Guard("message-roundtrip-states", res.States >= 50, "%d states explored", res.States)
-	vc11Corruption(r, "exact", h1, false, vc11Importers)
-	vc11Corruption(r, "two-channels", h2, false, vc11Importers)
-	vc11Corruption(r, "exact", h1, true, vc11Importers[:1])
+	vc11Corruption(r, "exact", h1, false, vc11Importers, nil)
+	vc11Corruption(r, "two-channels", h2, false, vc11Importers, nil)
+	vc11Corruption(r, "exact", h1, true, vc11Importers, map[string]bool{"bytes": true})
 	if r.Thorough() {
-		vc11Corruption(r, "two-channels", h2, true, vc11Importers[:1])
+		vc11Corruption(r, "two-channels", h2, true, vc11Importers, map[string]bool{"bytes": true})
 	}
 	vc11CrashRetry(r, "two-channels", h2)
 	if r.Thorough() {
